@@ -89,7 +89,7 @@ Proof.
   change (onm (refresh_succ (obs_pre cs o (th, e)))) with (onm (obs_pre cs o (th, e))).
   destruct e; try (match goal with |- context[obs_pre cs o (th, ?ee)] => destruct (obs_pre_keys cs o th ee I) as [E1 E2] end; rewrite E1, E2; auto; fail).
   cbn [obs_pre fst snd oi onm]. split; [|exact B]. change (NoDup (keys (set i (mkOI n (o_cnt o) 0 false None None false false false false false false false 0 false false
-    (match get th (o_api o) with Some OpRun | None => false | Some _ => true end) false false) (oi o)))). now apply nodup_set.
+    (match get th (o_api o) with Some OpRun | None => false | Some _ => true end) false false false []) (oi o)))). now apply nodup_set.
 Qed.
 
 Section C03x.
